@@ -179,6 +179,16 @@ def run_spec(spec, knobs, choices=None, poll=True, drain_virtual=40.0):
         import traceback
         run.harness_error = traceback.format_exc()
     finally:
+        # coroutine objects handed to Job() that were never awaited: close
+        # them here rather than at interpreter shutdown
+        for node in ctx.nodes.values():
+            for attr in ('corun', 'coshutdown'):
+                coro = getattr(node, attr, None)
+                if coro is not None and hasattr(coro, 'close'):
+                    try:
+                        coro.close()
+                    except Exception:                   # pylint: disable=W0703
+                        pass
         clock.deactivate()
         asyncio.set_event_loop(None)
         run.loop_stats = {
